@@ -221,3 +221,8 @@ _extend("C16", "borrow-guard and modulo-index rules", "Also decides that an inva
 _extend("C02", "self-difference typestate (memcpy equality facts)",
         "Also decides that no convergence measure is the element-wise difference of a vector with its own unmodified copy (the recorded finding: the error-term "
         "tolerance of the iterative solver).")
+
+_extend("C05", "who-may-write rule for the vnadata dimensions", "Also decides that vnadata_convert changes the logical dimensions only through vnadata_resize (so the in-place conversion to Zin leaves a freshly-built 1 x ports object).")
+_extend("C15", "who-may-write rule for the vnadata dimensions", "Also decides that vd_rows, vd_columns and vd_frequencies are assigned only by vnadata_resize (increments excepted), the function R14 checks for vacated-cell resets.")
+_extend("C09", "extent-stale typestate for header-sized buffers; re-executed acquisition sites in loops",
+        "Also decides that no buffer sized from a header value is used after that value was assigned again, and that an allocation site executed again in a keyword loop does not overwrite a still-owned object.")
